@@ -245,8 +245,6 @@ def text_findings(s, singlequoted, singleline):
     """the listed defects a text argument `s` printed by ypr_text in this mode is an instance of
     (the exact conditions are the hypotheses of `yang_text_roundtrip_partial` negated)"""
     out = []
-    if PLANE4.search(s):
-        out.append("F53")
     if singlequoted:
         if b"\n" in s:
             out.append("F51")
@@ -257,6 +255,8 @@ def text_findings(s, singlequoted, singleline):
             out.append("F5")
         if singleline and b"\n " in s:
             out.append("F35")
+    if PLANE4.search(s):
+        out.append("F53")
     return out
 
 
@@ -441,4 +441,7 @@ def classify(component, what, case):
         return None
     t = unhex(case["text_hex"])
     f = text_findings(t, case.get("singlequoted", False), case.get("singleline", False))
+    if "F53" in f and "InChar" in [str(x) for x in case.get("reply", [])] and "F50" not in f:
+        return "F53"        # the lexer rejects a plane-4 character
+    f = [x for x in f if x != "F53"] or f
     return f[0] if f else None
